@@ -166,6 +166,50 @@ def text_value_checks(run) -> None:
                 run.violation(f"text-values:published:{kind}", f"t_values should be the declared sequence {texts}, found {fctx.get('t_values')!r}; {node}", {"node": node})
 
 
+def environment_probe(run) -> None:
+    """C03 does not quantify over the process environment: whatever SEMANTIVA_* variables the sweep machinery consults
+    (observed, not guessed: vharness.envprobe), the element sequence stays the documented one.  The probe pipelines use
+    elements whose LATER steps finish sooner."""
+    from .. import envprobe
+    from ..seams import run_nodes
+
+    def sweep(proc, param, extra=None):
+        n = {"processor": proc, "derive": {"parameter_sweep": {"parameters": {param: "t"}, "variables": {"t": {"values": [1.0, 2.0, 3.0, 4.0]}},
+                                                               "collection": "FloatDataCollection"}}}
+        if extra:
+            n.update(extra)
+            del n["derive"]["parameter_sweep"]["collection"]
+        return n
+    progs = {"op": ([{"processor": "FloatValueDataSource", "parameters": {"value": 2.0}}, sweep("VNapScale", "factor")], ("coll", [2.0, 4.0, 6.0, 8.0])),
+             "src": ([sweep("VNapSource", "a")], ("coll", [10.0, 20.0, 30.0, 40.0])),
+             "probe": ([{"processor": "FloatValueDataSource", "parameters": {"value": 2.0}}, sweep("VNapProbe", "factor", {"context_key": "res"})], ("ctx", [2.0, 4.0, 6.0, 8.0]))}
+
+    def observe(kind):
+        nodes, (where, want) = progs[kind]
+        o = run_nodes(nodes, None, {})
+        if o["raised"] is not None:
+            return f"raised {o['raised']}"
+        got = list(o["final"][0][1]) if where == "coll" else list(o["final"][1].get("res") or [])
+        tv = o["final"][1].get("t_values")
+        if got != want or tv != [1.0, 2.0, 3.0, 4.0]:
+            return f"elements {got} (expected {want}), t_values {tv}"
+        return None
+    for kind in progs:
+        base = observe(kind)
+        if base:
+            raise core.MachineryError(f"environment probe: the {kind} sweep is wrong in the DEFAULT environment: {base}")
+    names = envprobe.discover(lambda: [observe(k) for k in progs])
+    run.extra["environment_variables_consulted"] = names
+    for assign in envprobe.settings(names):
+        with envprobe.with_env(assign):
+            for kind in progs:
+                run.evaluations += 1
+                bad = observe(kind)
+                if bad:
+                    run.violation(f"environment:{kind}:{next(iter(assign))}", f"with {assign} in the process environment the {kind} sweep over t = 1..4 gives {bad}",
+                                  {"env": assign, "kind": kind})
+
+
 def replay_one(payload):
     from .. import seams
     seams.setup()
@@ -196,6 +240,7 @@ def check(tier: str) -> int:
         run.require_tlc_ok(res3, "Sweep.three.check")
         _replay(run, "Sweep.three.emit")
     text_value_checks(run)
+    environment_probe(run)
     if set(run.extra.get("cases_by_kind", {})) != {"src", "op", "probe"}:
         raise core.MachineryError("vacuity: not all three wrapped kinds were exercised")
     run.sample({"spec": "probe, by_position + broadcast, t in [1,2], u in log 1..100", "node": g_sweep({"kind": "probe", "vars": {"t": {"t": "seq", "vals": [1, 2]}}, "mode": "bp", "bc": True, "expr": "2*t", "bplace": "default"})[-1]})
